@@ -437,7 +437,15 @@ func (p *processor) Propagate(event *Event) {
 	event.action++
 	nextActionIdx := event.action
 	p.tryResetBusy(nextActionIdx - 1)
-	p.processSequence(event)
+
+	// Propagate is called from inside Do of the propagating action, so don't wait here
+	// for the next sequential event if some next action holds the propagated one:
+	// that event would be processed before the one the propagating action is still handling.
+	isPassed, _ := p.doActions(event)
+	if isPassed {
+		event.stage = eventStageOutput
+		p.router.Out(event)
+	}
 }
 
 func (p *processor) IncMaxEventSizeExceeded(lvs ...string) {
